@@ -349,6 +349,37 @@ def rule_k2(ctx):
         if call is None:
             raise AnalysisError(f"CP1Disk.{mname}: call to disk_interactions "
                                 "not found")
+        # every exit hands out the case-table array: no shortcut returns a
+        # raw disk_interactions result (which describes the boundary
+        # circles, i.e. the complement for a disk through infinity)
+        tables = {dotted(x.targets[0]) for x in ast.walk(f.node)
+                  if isinstance(x, ast.Assign) and len(x.targets) == 1
+                  and isinstance(x.value, ast.Call)
+                  and dotted(x.value.func) in ("np.full", "np.zeros",
+                                               "np.ones", "np.empty")}
+        raw = [x for x in ast.walk(f.node) if isinstance(x, ast.Return)
+               and x.value is not None and isinstance(x.value, ast.Name)
+               and x.value.id not in tables]
+        unpacked = {dotted(e) for x in ast.walk(f.node)
+                    if isinstance(x, ast.Assign)
+                    and isinstance(x.value, ast.Call)
+                    and dotted(x.value.func).endswith("disk_interactions")
+                    for t in x.targets
+                    for e in (t.elts if isinstance(t, ast.Tuple) else [t])}
+        raw = [x for x in raw if x.value.id in unpacked]
+        if raw:
+            x = raw[0]
+            r.violation(
+                "K2", f"{f.fq}|shortcut-return:{x.value.id}", loc(f, x),
+                norm_stmt(x),
+                f"CP1Disk.{mname} returns `{x.value.id}` (the raw affine "
+                "relation between the boundary circles) without going "
+                "through the bounded/unbounded case table: for an operand "
+                "that contains infinity the circle bounds its complement",
+                instance=f"{mname}:returns")
+        else:
+            r.ok("K2", f"{mname}:returns", loc(f, f.node), "",
+                 "every return hands out the case-table array")
         elem, pair = [], []
         axes = {}
         elem_arm = None
